@@ -553,7 +553,11 @@ class SI:
     __hash__ = None
 
     def __index__(self):
-        raise HarnessError("index() of a symbolic int")
+        # used as a slice bound / position: decided by forking over small values (fixed order)
+        for k in list(range(0, 33)) + list(range(-1, -9, -1)):
+            if builtins.bool(SB(self.e == k)):
+                return k
+        raise HarnessError("index() of a symbolic int outside [-8, 32]")
 
     def __int__(self):
         raise HarnessError("int() of a symbolic int")
